@@ -2,7 +2,7 @@
 From Coq Require Import ZArith List String Bool Lia.
 Import ListNotations.
 Require Import Verif.lib.PyLite Verif.gen.NegotiateGen Verif.lib.Negotiate Verif.lib.NegotiateProofs Verif.lib.NegBytes
-               Verif.gen.IdentityGen Verif.lib.NegSplit Verif.lib.Identity Verif.lib.IdentityProofs Verif.lib.IdentityBytes Verif.lib.IdentityBytesRef.
+               Verif.gen.IdentityGen Verif.lib.NegSplit Verif.lib.Identity Verif.lib.IdentityProofs Verif.lib.IdentityBytes.
 Local Open Scope Z_scope.
 
 (* facts about the TRANSLATED dispatch, proved by evaluation on the finite phase x role space (independent of how the
@@ -26,16 +26,20 @@ Section BytesProofs.
 Variable cert : Type.
 Variable tubid_of : cert -> list Z.
 Variable decode : list Z -> option (list Z).
-Variable pre_ok post_ok decision_ok : list (list Z * list Z) -> bool.
+Variable D : Type.
+Variable parse : list Z -> res D.
+Variable has_error : D -> bool.
+Variable claimed_of : D -> option (list Z).
+Variable pre_chk post_chk decision_chk : D -> res unit.
 Variable redirect : list Z -> bool.
 
 Notation handle_hello := (handle_hello cert tubid_of).
-Notation handle_encrypted := (handle_encrypted cert tubid_of decode pre_ok post_ok).
-Notation handle_deciding := (handle_deciding decode decision_ok).
-Notation bhandle := (bhandle cert tubid_of decode pre_ok post_ok decision_ok redirect).
-Notation bdrain := (bdrain cert tubid_of decode pre_ok post_ok decision_ok redirect).
-Notation brecv_chunk := (brecv_chunk cert tubid_of decode pre_ok post_ok decision_ok redirect).
-Notation brecv_all := (brecv_all cert tubid_of decode pre_ok post_ok decision_ok redirect).
+Notation handle_encrypted := (handle_encrypted cert tubid_of D parse has_error claimed_of pre_chk post_chk).
+Notation handle_deciding := (handle_deciding D parse decision_chk).
+Notation bhandle := (bhandle cert tubid_of decode D parse has_error claimed_of pre_chk post_chk decision_chk redirect).
+Notation bdrain := (bdrain cert tubid_of decode D parse has_error claimed_of pre_chk post_chk decision_chk redirect).
+Notation brecv_chunk := (brecv_chunk cert tubid_of decode D parse has_error claimed_of pre_chk post_chk decision_chk redirect).
+Notation brecv_all := (brecv_all cert tubid_of decode D parse has_error claimed_of pre_chk post_chk decision_chk redirect).
 
 Lemma rexc_deciding x : rexc x = RP PhDeciding -> x = RP PhDeciding.
 Proof. unfold rexc, phase_set_by_error_handler. first [intros H; exact H | intros H; discriminate H]. Qed.
@@ -51,8 +55,8 @@ Proof. intros H. apply rexc_banana in H. unfold phase_during_evaluate_hello in H
 
 (* a header block whose hello passed every check up to and including the identity checks of evaluateNegotiationVersion1 *)
 Definition passed_identity (r : role) (my tgt : list Z) (p : presented cert) (hdr : list Z) : Prop :=
-  exists d t m, parse_lines decode hdr = Some d /\ dict_has k_error d = false /\ pre_ok d = true /\
-                handle_hello r my tgt p (dict_get k_my_tub_id d) = Accept t m.
+  exists d t m, parse hdr = Ok d /\ has_error d = false /\ pre_chk d = Ok tt /\
+                handle_hello r my tgt p (claimed_of d) = Accept t m.
 
 Record binv (r : role) (my tgt : list Z) (p : presented cert) (st : bstate) : Prop := {
   I_keys : forall k, In k (b_attached st) -> key_ok cert tubid_of r tgt p k;
@@ -62,16 +66,18 @@ Record binv (r : role) (my tgt : list Z) (p : presented cert) (st : bstate) : Pr
   I_len : (List.length (b_attached st) <= 1)%nat;
   I_passed : forall hdr, In hdr (b_passed st) -> passed_identity r my tgt p hdr;
   I_att : b_attached st <> [] -> b_passed st <> [];
-  I_plain : b_phase st = RPlaintext -> b_their st = None /\ b_passed st = [] }.
+  I_plain : b_phase st = RPlaintext -> b_their st = None /\ b_passed st = [];
+  I_live : b_phase st <> RP PhAbandoned }.
 
 Lemma raised_inv r my tgt p st w :
   binv r my tgt p st -> b_phase st <> RP PhBanana -> binv r my tgt p (raised st (b_phase st) (b_their st) w).
 Proof.
-  intros [Ha Hb Hc Hd He Hf Hg Hh] Hnb.
+  intros [Ha Hb Hc Hd He Hf Hg Hh Hi] Hnb.
   constructor; unfold raised; cbn [b_attached b_their b_phase b_passed]; try assumption;
     try (intros _; exact (Hd Hnb));
     try (intros H; apply rexc_deciding in H; exact (Hc H));
-    try (intros H; unfold rexc in H; destruct phase_set_by_error_handler; [discriminate H|]; exact (Hh H)).
+    try (intros H; unfold rexc in H; destruct phase_set_by_error_handler; [discriminate H|]; exact (Hh H));
+    try (unfold rexc, phase_set_by_error_handler; exact Hi).
 Qed.
 
 (* an exception raised while evaluateHello runs (possibly after self.theirTubRef was stored) *)
@@ -79,11 +85,12 @@ Lemma raised_eval_inv r my tgt p st their w :
   binv r my tgt p st -> b_phase st <> RP PhBanana -> their_ok cert tubid_of p their ->
   binv r my tgt p (raised st (RP phase_during_evaluate_hello) their w).
 Proof.
-  intros [Ha Hb Hc Hd He Hf Hg Hh] Hnb Hth.
+  intros [Ha Hb Hc Hd He Hf Hg Hh Hi] Hnb Hth.
   constructor; unfold raised; cbn [b_attached b_their b_phase b_passed]; try assumption;
     try (intros _; exact (Hd Hnb));
     try (intros H; contradiction (rexc_eval_not_deciding H));
-    try (intros H; unfold rexc in H; destruct phase_set_by_error_handler; discriminate H).
+    try (intros H; unfold rexc in H; destruct phase_set_by_error_handler; discriminate H);
+    try (unfold rexc, phase_set_by_error_handler, phase_during_evaluate_hello; discriminate).
 Qed.
 
 Lemma handle_encrypted_inv r my tgt p st hdr st' exc :
@@ -94,13 +101,13 @@ Proof.
   unfold IdentityBytes.handle_encrypted.
   destruct (peer_from_transport cert p) as [c|w].
   2:{ intros H; inversion H; subst. apply raised_inv; auto. }
-  destruct (parse_lines decode hdr) as [d|] eqn:EP.
+  destruct (parse hdr) as [d|w] eqn:EP.
   2:{ intros H; inversion H; subst. apply raised_inv; auto. }
-  destruct (dict_has k_error d) eqn:EE.
+  destruct (has_error d) eqn:EE.
   { intros H; inversion H; subst. apply raised_inv; auto. }
-  destruct (pre_ok d) eqn:EPre; cbn [negb].
+  destruct (pre_chk d) as [[]|w] eqn:EPre.
   2:{ intros H; inversion H; subst. apply raised_eval_inv; [exact Hinv|exact Hnb|exact (I_their _ _ _ _ _ Hinv)]. }
-  destruct (handle_hello r my tgt p (dict_get k_my_tub_id d)) as [w|t m] eqn:EH.
+  destruct (handle_hello r my tgt p (claimed_of d)) as [w|t m] eqn:EH.
   { intros H; inversion H; subst.
     apply raised_eval_inv; [exact Hinv|exact Hnb|apply their_after_ok; exact (I_their _ _ _ _ _ Hinv)]. }
   assert (Hpass : passed_identity r my tgt p hdr).
@@ -109,10 +116,10 @@ Proof.
   pose proof (handle_hello_bound _ _ _ _ _ _ _ _ _ EH) as (crt' & Hl' & Hh' & _ & Htgt & _ & _).
   assert (Hth : their_ok cert tubid_of p (Some t)).
   { intros t0 Ht0. inversion Ht0; subst t0. exists crt'. auto. }
-  pose proof Hinv as [Ha Hb Hc Hd He Hf Hg Hh].
+  pose proof Hinv as [Ha Hb Hc Hd He Hf Hg Hh Hi].
   pose proof (Hd Hnb) as Hnil.
   destruct m.
-  - destruct (post_ok d).
+  - destruct (post_chk d) as [u|w].
     + intros H; inversion H; subst st' exc; clear H.
       constructor; unfold switched; cbn [b_attached b_their b_phase b_passed]; rewrite ?Hnil; try assumption.
       * intros k [Hk0|[]]. subst k. exists crt. auto.
@@ -121,6 +128,7 @@ Proof.
       * cbn [List.length]; lia.
       * intros h [Hh0|Hh0]; [subst h; exact Hpass|apply Hf; exact Hh0].
       * intros _; discriminate.
+      * discriminate.
       * discriminate.
     + intros H; inversion H; subst st' exc; clear H.
       apply raised_eval_inv; [exact Hinv|exact Hnb|exact Hth].
@@ -131,6 +139,7 @@ Proof.
     + intros h [Hh0|Hh0]; [subst h; exact Hpass|apply Hf; exact Hh0].
     + intros _; discriminate.
     + unfold slave_phase_after_accept. discriminate.
+    + unfold slave_phase_after_accept. discriminate.
 Qed.
 
 Lemma handle_deciding_inv r my tgt p st hdr st' exc :
@@ -139,11 +148,11 @@ Lemma handle_deciding_inv r my tgt p st hdr st' exc :
 Proof.
   intros Hinv Hph. assert (Hnb : b_phase st <> RP PhBanana) by (rewrite Hph; discriminate).
   unfold IdentityBytes.handle_deciding.
-  destruct (parse_lines decode hdr) as [d|].
+  destruct (parse hdr) as [d|w].
   2:{ intros H; inversion H; subst. apply raised_inv; auto. }
-  destruct (decision_ok d).
+  destruct (decision_chk d) as [u|w].
   2:{ intros H; inversion H; subst. apply raised_inv; auto. }
-  pose proof Hinv as [Ha Hb Hc Hd He Hf Hg Hh].
+  pose proof Hinv as [Ha Hb Hc Hd He Hf Hg Hh Hi].
   destruct (Hc Hph) as ((t0 & Ht0 & Htgt) & Hpne). rewrite Ht0.
   intros H; inversion H; subst st' exc; clear H.
   pose proof (Hd Hnb) as Hnil.
@@ -159,16 +168,18 @@ Proof.
   - cbn [List.length]; lia.
   - intros _; exact Hpne.
   - discriminate.
+  - discriminate.
 Qed.
 
 Lemma enter_encrypted_inv r my tgt p st :
   binv r my tgt p st -> b_phase st = RPlaintext -> binv r my tgt p (enter_encrypted st).
 Proof.
-  intros [Ha Hb Hc Hd He Hf Hg Hh] Hph.
+  intros [Ha Hb Hc Hd He Hf Hg Hh Hi] Hph.
   assert (Hnb : b_phase st <> RP PhBanana) by (rewrite Hph; discriminate).
   constructor; unfold enter_encrypted; cbn [b_attached b_their b_phase b_passed]; try assumption.
   - unfold phase_after_start_encrypted. discriminate.
   - intros _. exact (Hd Hnb).
+  - unfold phase_after_start_encrypted. discriminate.
   - unfold phase_after_start_encrypted. discriminate.
 Qed.
 
@@ -192,7 +203,7 @@ Proof.
 Qed.
 
 Lemma with_bbuf_inv r my tgt p st b : binv r my tgt p st -> binv r my tgt p (with_bbuf st b).
-Proof. intros [Ha Hb Hc Hd He Hf Hg Hh]. constructor; assumption. Qed.
+Proof. intros [Ha Hb Hc Hd He Hf Hg Hh Hi]. constructor; assumption. Qed.
 
 Lemma is_banana_false ph : is_banana ph = false -> ph <> RP PhBanana.
 Proof. unfold is_banana. intros H E. subst ph. cbv in H. discriminate H. Qed.
@@ -233,6 +244,7 @@ Proof.
   - intros h [].
   - intros H; contradiction H; reflexivity.
   - intros _. split; reflexivity.
+  - unfold initial_phase. discriminate.
 Qed.
 
 Lemma brecv_all_inv r my tgt p chunks : binv r my tgt p (brecv_all r my tgt p chunks).
@@ -255,8 +267,8 @@ Proof. intros H. exact (I_keys _ _ _ _ _ (brecv_all_inv r my tgt p chunks) _ H).
    passed the identity checks against the leaf certificate *)
 Theorem bytes_no_attach_before_identity r my tgt p chunks :
   b_attached (brecv_all r my tgt p chunks) <> [] ->
-  exists hdr d t m, parse_lines decode hdr = Some d /\ dict_has k_error d = false /\ pre_ok d = true /\
-                    handle_hello r my tgt p (dict_get k_my_tub_id d) = Accept t m.
+  exists hdr d t m, parse hdr = Ok d /\ has_error d = false /\ pre_chk d = Ok tt /\
+                    handle_hello r my tgt p (claimed_of d) = Accept t m.
 Proof.
   intros H. pose proof (brecv_all_inv r my tgt p chunks) as I.
   pose proof (I_att _ _ _ _ _ I H) as Hne.
@@ -282,43 +294,103 @@ Proof.
   split; [exact (proj1 (I_plain _ _ _ _ _ I H))|]. apply (I_nb _ _ _ _ _ I). rewrite H. discriminate.
 Qed.
 
+(* ------------------------------------------------------------------ what a refusal does, and what can happen after it
+   A header block that makes its handler raise (dataReceived's `except Exception`: failureReason recorded,
+   loseConnection) leaves the Negotiation object ALIVE until connectionLost arrives: same receive phase, same buffer rest,
+   nothing registered, nothing forgotten about passed hellos; the only thing besides the recorded failure that can change
+   is self.theirTubRef, only in the ENCRYPTED phase, and only to the hash of the leaf certificate of this transport. *)
+Theorem refusal_changes_nothing_but r my tgt p st hdr st' :
+  bhandle r my tgt p st hdr = (st', true) ->
+  b_phase st' = b_phase st /\ b_attached st' = b_attached st /\ b_passed st' = b_passed st /\ b_buf st' = b_buf st /\
+  b_fail st' <> None /\
+  (b_their st' = b_their st \/
+   (b_phase st = RP PhEncrypted /\ exists crt, leaf p = Some crt /\ b_their st' = Some (tubid_of crt))).
+Proof.
+  unfold IdentityBytes.bhandle.
+  assert (R : forall w, b_phase (raised st (b_phase st) (b_their st) w) = b_phase st).
+  { intros w. unfold raised, rexc, phase_set_by_error_handler. reflexivity. }
+  assert (Plain : forall w st0, (raised st (b_phase st) (b_their st) w, true) = (st0, true) ->
+            b_phase st0 = b_phase st /\ b_attached st0 = b_attached st /\ b_passed st0 = b_passed st /\ b_buf st0 = b_buf st /\
+            b_fail st0 <> None /\
+            (b_their st0 = b_their st \/ (b_phase st = RP PhEncrypted /\ exists crt, leaf p = Some crt /\ b_their st0 = Some (tubid_of crt)))).
+  { intros w st0 H. inversion H; subst st0. rewrite R. cbn [raised b_attached b_passed b_buf b_fail b_their].
+    repeat split; try reflexivity; try discriminate. left; reflexivity. }
+  destruct (dispatch (b_phase st) (is_client r)) eqn:ED.
+  - destruct (plaintext_client_guard decode hdr); intros H; [discriminate H|]. eapply Plain; exact H.
+  - destruct (plaintext_server_guard decode my redirect hdr); intros H; [discriminate H|]. eapply Plain; exact H.
+  - apply dispatch_encrypted in ED.
+    assert (RE : forall th w, b_phase (raised st (RP phase_during_evaluate_hello) th w) = b_phase st).
+    { intros th w. rewrite ED. unfold raised, rexc, phase_set_by_error_handler, phase_during_evaluate_hello. reflexivity. }
+    unfold IdentityBytes.handle_encrypted.
+    destruct (peer_from_transport cert p) as [c|w]; [|intros H; eapply Plain; exact H].
+    destruct (parse hdr) as [d|w]; [|intros H; eapply Plain; exact H].
+    destruct (has_error d); [intros H; eapply Plain; exact H|].
+    destruct (pre_chk d) as [u|w].
+    2:{ intros H; inversion H; subst st'. rewrite RE. cbn [raised b_attached b_passed b_buf b_fail b_their].
+        repeat split; try reflexivity; try discriminate. left; reflexivity. }
+    destruct (handle_hello r my tgt p (claimed_of d)) as [w|t m] eqn:EH.
+    + intros H; inversion H; subst st'. rewrite RE. cbn [raised b_attached b_passed b_buf b_fail b_their].
+      repeat split; try reflexivity; try discriminate.
+      unfold their_after_rejected_evaluation.
+      destruct (leaf p) as [c0|] eqn:El; [|left; reflexivity].
+      destruct (claimed_of d) as [[|x tl]|]; try (left; reflexivity).
+      destruct (list_eqb (tubid_of c0) (x :: tl)) eqn:E; [|left; reflexivity].
+      apply list_eqb_eq in E. right. split; [exact ED|]. exists c0. rewrite E. auto.
+    + destruct m.
+      * destruct (post_chk d) as [u2|w]; intros H; [discriminate H|].
+        inversion H; subst st'. rewrite RE. cbn [raised b_attached b_passed b_buf b_fail b_their].
+        repeat split; try reflexivity; try discriminate.
+        apply handle_hello_bound in EH. destruct EH as (crt & Hl & Hh & _).
+        right. split; [exact ED|]. exists crt. rewrite Hh. auto.
+      * intros H; discriminate H.
+  - unfold IdentityBytes.handle_deciding.
+    destruct (parse hdr) as [d|w]; [|intros H; eapply Plain; exact H].
+    destruct (decision_chk d) as [u|w]; [|intros H; eapply Plain; exact H].
+    destruct (b_their st); intros H; [discriminate H|eapply Plain; exact H].
+  - intros H; eapply Plain; exact H.
+Qed.
+
+(* the ENCRYPTED handler has no memory: what it does with a header block -- refuse, wait for the decision, or register --
+   does not depend on earlier failures or on a theirTubRef left behind by an earlier rejected hello; every hello is
+   checked from scratch against the leaf certificate *)
+Theorem hello_evaluation_is_memoryless r my tgt p st1 st2 hdr :
+  b_phase st1 = b_phase st2 -> b_attached st1 = b_attached st2 ->
+  snd (handle_encrypted r my tgt p st1 hdr) = snd (handle_encrypted r my tgt p st2 hdr) /\
+  b_phase (fst (handle_encrypted r my tgt p st1 hdr)) = b_phase (fst (handle_encrypted r my tgt p st2 hdr)) /\
+  b_attached (fst (handle_encrypted r my tgt p st1 hdr)) = b_attached (fst (handle_encrypted r my tgt p st2 hdr)) /\
+  (snd (handle_encrypted r my tgt p st1 hdr) = false ->
+   b_their (fst (handle_encrypted r my tgt p st1 hdr)) = b_their (fst (handle_encrypted r my tgt p st2 hdr))).
+Proof.
+  intros Hp Ha. unfold IdentityBytes.handle_encrypted.
+  destruct (peer_from_transport cert p); [|cbn; rewrite Hp, Ha; repeat split; try reflexivity; discriminate].
+  destruct (parse hdr) as [d|w]; [|cbn; rewrite Hp, Ha; repeat split; try reflexivity; discriminate].
+  destruct (has_error d); [cbn; rewrite Hp, Ha; repeat split; try reflexivity; discriminate|].
+  destruct (pre_chk d); [|cbn; rewrite Ha; repeat split; try reflexivity; discriminate].
+  destruct (handle_hello r my tgt p (claimed_of d)) as [w|t m]; [cbn; rewrite Ha; repeat split; try reflexivity; discriminate|].
+  destruct m; [destruct (post_chk d)|]; cbn; rewrite Ha; repeat split; try reflexivity; discriminate.
+Qed.
+
+(* input alone never ends the life of the Negotiation object: only switchToBanana (hand-over to the Broker) or
+   connectionLost (not an input) do *)
+Theorem bytes_never_abandoned r my tgt p chunks : b_phase (brecv_all r my tgt p chunks) <> RP PhAbandoned.
+Proof. exact (I_live _ _ _ _ _ (brecv_all_inv r my tgt p chunks)). Qed.
+
+(* consequently the object keeps reading: whatever was refused before, the next chunk is processed by the same code *)
+Theorem bytes_keeps_reading r my tgt p chunks chunk :
+  b_phase (brecv_all r my tgt p chunks) <> RP PhBanana ->
+  brecv_all r my tgt p (chunks ++ [chunk]) =
+  bdrain (S (List.length (b_buf (brecv_all r my tgt p chunks) ++ chunk))) r my tgt p
+         (with_bbuf (brecv_all r my tgt p chunks) (b_buf (brecv_all r my tgt p chunks) ++ chunk)).
+Proof.
+  intros Hnb. unfold IdentityBytes.brecv_all. rewrite fold_left_app. cbn [fold_left].
+  fold (brecv_all r my tgt p chunks). unfold IdentityBytes.brecv_chunk.
+  pose proof (bytes_never_abandoned r my tgt p chunks) as Hl.
+  destruct (is_banana (b_phase (brecv_all r my tgt p chunks))) eqn:EB.
+  { apply rphase_eqb_eq in EB. contradiction. }
+  destruct (is_abandoned (b_phase (brecv_all r my tgt p chunks))) eqn:EA.
+  { apply rphase_eqb_eq in EA. contradiction. }
+  reflexivity.
+Qed.
+
 End BytesProofs.
 
-(* ------------------------------------------------------------------ non-vacuity, on the concrete instance of IdentityBytesRef.v *)
-Definition exb_tubid (c : Z) : list Z := if c =? 2 then [98; 98] else if c =? 3 then [99; 99] else [].
-Definition exb_recv := brecv_all Z exb_tubid ascii_decode ref_pre_ok (ref_post_ok 0 1) (ref_decision_ok 0 1 []) (fun _ => false).
-Definition exb_get : list Z := [71; 69; 84; 32; 47; 105; 100; 47; 122; 122; 32; 72; 84; 84; 80; 47; 49; 46; 49; 13; 10; 85; 112; 103; 114; 97; 100; 101; 58; 32; 84; 76; 83; 47; 49; 46; 48; 13; 10; 13; 10].
-Definition exb_get_other : list Z := [71; 69; 84; 32; 47; 105; 100; 47; 121; 121; 32; 72; 84; 84; 80; 47; 49; 46; 49; 13; 10; 13; 10].
-Definition exb_hello_bb : list Z := [98; 97; 110; 97; 110; 97; 45; 110; 101; 103; 111; 116; 105; 97; 116; 105; 111; 110; 45; 114; 97; 110; 103; 101; 58; 32; 51; 32; 51; 13; 10; 109; 121; 45; 116; 117; 98; 45; 105; 100; 58; 32; 98; 98; 13; 10; 13; 10].
-Definition exb_hello_cc : list Z := [98; 97; 110; 97; 110; 97; 45; 110; 101; 103; 111; 116; 105; 97; 116; 105; 111; 110; 45; 114; 97; 110; 103; 101; 58; 32; 51; 32; 51; 13; 10; 109; 121; 45; 116; 117; 98; 45; 105; 100; 58; 32; 99; 99; 13; 10; 13; 10].
-Definition exb_101 : list Z := [72; 84; 84; 80; 47; 49; 46; 49; 32; 49; 48; 49; 32; 83; 119; 105; 116; 99; 104; 105; 110; 103; 32; 80; 114; 111; 116; 111; 99; 111; 108; 115; 13; 10; 85; 112; 103; 114; 97; 100; 101; 58; 32; 84; 76; 83; 47; 49; 46; 48; 13; 10; 13; 10].
-Definition exb_decision : list Z := [98; 97; 110; 97; 110; 97; 45; 100; 101; 99; 105; 115; 105; 111; 110; 45; 118; 101; 114; 115; 105; 111; 110; 58; 32; 51; 13; 10; 13; 10].
-
-(* a listener "zz" (decides: "zz" > "bb"): GET, then the hello of the peer that authenticated as bb, cut in the middle of a block *)
-Example exb_listener_attaches :
-  b_attached (exb_recv Server [122; 122] [] {| leaf := Some 2; extras := [] |}
-                       [firstn 10 exb_get; skipn 10 exb_get ++ firstn 7 exb_hello_bb; skipn 7 exb_hello_bb]) = [[98; 98]].
-Proof. vm_compute. reflexivity. Qed.
-
-(* the same bytes from a peer that authenticated as cc: refused, and a decision block sent afterwards changes nothing *)
-Example exb_listener_refuses_impostor :
-  let st := exb_recv Server [122; 122] [] {| leaf := Some 3; extras := [] |} [exb_get ++ exb_hello_bb; exb_decision] in
-  b_attached st = [] /\ b_their st = None /\ b_phase st = RP PhEncrypted.
-Proof. vm_compute. repeat split; reflexivity. Qed.
-
-(* a GET for another Tub is refused in the plaintext phase; the peer carries on with a correct GET and a proven hello *)
-Example exb_listener_second_get :
-  let st := exb_recv Server [122; 122] [] {| leaf := Some 2; extras := [] |} [exb_get_other; exb_get; exb_hello_bb] in
-  b_attached st = [[98; 98]] /\ b_fail st = Some "NegotiationError"%string.
-Proof. vm_compute. split; reflexivity. Qed.
-
-(* a dialling Tub "aa" (does not decide: "aa" < "bb") attaches only when the decision arrives, under the dialled id *)
-Example exb_client_waits_for_decision :
-  b_attached (exb_recv Client [97; 97] [98; 98] {| leaf := Some 2; extras := [] |} [exb_101; exb_hello_bb]) = [] /\
-  b_attached (exb_recv Client [97; 97] [98; 98] {| leaf := Some 2; extras := [] |} [exb_101; exb_hello_bb; exb_decision]) = [[98; 98]].
-Proof. vm_compute. split; reflexivity. Qed.
-
-(* ... and never when the peer proved an identity other than the dialled one *)
-Example exb_client_wrong_tub :
-  b_attached (exb_recv Client [97; 97] [98; 98] {| leaf := Some 3; extras := [] |} [exb_101; exb_hello_cc; exb_decision]) = [].
-Proof. vm_compute. reflexivity. Qed.
